@@ -3,7 +3,9 @@ SPECIFICATION Spec
 CONSTANTS
   Devs <- NoDevs
   Space = "q2s"
-  Modes = {"E", "C"}
+  Modes = {"E"}
   EmitCases = FALSE
+  PeekBudget = 0
 INVARIANTS Inv_Ctx Inv_End Inv_Conform
+PROPERTIES Prop_Disc
 CHECK_DEADLOCK FALSE
